@@ -105,6 +105,15 @@ class Report(object):
         except AnalysisError as e:
             self.gaps.append('%s: %s' % (getattr(fn, '__name__', 'rule group'), e))
             return None
+        except (KeyboardInterrupt, SystemExit):
+            raise
+        except Exception as e:      # a rule tripping over a shape it did not expect must not crash the check
+            import traceback
+            tb = traceback.extract_tb(e.__traceback__)
+            loc = '%s:%s' % (os.path.basename(tb[-1].filename), tb[-1].lineno) if tb else '?'
+            self.gaps.append('%s: internal error in the rule (%s: %s at %s) -- construct not recognised'
+                             % (getattr(fn, '__name__', 'rule group'), type(e).__name__, e, loc))
+            return None
 
     def assume(self, text):
         if text not in self.assumptions:
